@@ -68,7 +68,7 @@ func ExtractTypeNameMap(v interface{}) (map[string]reflect.Type, map[string]stri
 		nameMap[name] = name
 
 		if v.CanInterface() {
-			if n, ok := v.Interface().(CodecNamable); ok {
+			if n, ok := v.Interface().(CodecNamable); ok && !promotedCodecName(v, n.HessianCodecName()) {
 				nameMap[name] = n.HessianCodecName()
 				typMap[n.HessianCodecName()] = typ
 			}
@@ -97,6 +97,29 @@ func ExtractTypeNameMap(v interface{}) (map[string]reflect.Type, map[string]stri
 	}
 
 	return typMap, nameMap
+}
+
+// promotedCodecName reports whether the codec name of a struct value is the
+// one of a struct embedded in it: embedding promotes HessianCodecName, but the
+// name belongs to the embedded struct, not to the struct around it (two
+// classes under one name would share one class definition).
+func promotedCodecName(v reflect.Value, codecName string) bool {
+	if v.Kind() != reflect.Struct {
+		return false
+	}
+	for i := 0; i < v.NumField(); i++ {
+		if !v.Type().Field(i).Anonymous {
+			continue
+		}
+		f := v.Field(i)
+		if !f.CanInterface() || (f.Kind() == reflect.Ptr && f.IsNil()) {
+			continue
+		}
+		if n, ok := f.Interface().(CodecNamable); ok && n.HessianCodecName() == codecName {
+			return true
+		}
+	}
+	return false
 }
 
 // remove pointer '*' and right bracket ']'
